@@ -203,6 +203,13 @@ func pointsFoldCase(c *Ctx) {
 		}
 	}
 	checkPeriods(sdb, "from the cache at the end")
+	var storedIdx []int
+	for i := 0; i < k; i++ {
+		if !(i == k-1 && newestInProgress) {
+			storedIdx = append(storedIdx, i)
+		}
+	}
+	csFoldPoints(c, kv, sdb, storedIdx, func(i int) *storage.Point { return specs[i].build(hashes[i], hashes[i+1]) }) // cs-* lines (s_consstore.go)
 	// restart: a new cache over the same stored bytes
 	cold := storage.NewConsensusDB(kv, 4, 64)
 	checkPeriods(cold, "by a restarted DB")
